@@ -13,6 +13,55 @@ Proof. intros. unfold zrow. apply nth_overflow. exact H. Qed.
 Lemma oget_out : forall d v, (length d <= v)%nat -> oget d v = None.
 Proof. intros. unfold oget. apply nth_overflow. exact H. Qed.
 
+(* ------------------------------------------------------------------ the three facts that pin down distances *)
+Section DistFacts.
+  Variable a : zadj.
+  Variable s : nat.
+  Variable d : list (option Z).
+  Hypothesis Fsrc : oget d s = Some 0%Z.
+  Hypothesis Frelaxed : forall v w c dv,
+    In (w, c) (zrow a v) -> oget d v = Some dv ->
+    (0 < c)%Z /\ exists dw, oget d w = Some dw /\ (dw <= dv + c)%Z.
+  Hypothesis Ftight : forall w dw, oget d w = Some dw ->
+    (0 <= dw)%Z /\ (w = s \/ exists v dv c, oget d v = Some dv /\ In (w, c) (zrow a v) /\ (dv + c = dw)%Z).
+
+  (* every walk from s ends in a reached node whose value is at most the walk's weight *)
+  Lemma df_lower : forall w y, walk a s w y -> exists dw, oget d w = Some dw /\ (dw <= y)%Z.
+  Proof.
+    intros w y H. induction H as [|v w c x Hwalk IH Hin].
+    - exists 0%Z. split; [apply Fsrc | lia].
+    - destruct IH as [dv [Hv Hle]].
+      destruct (Frelaxed v w c dv Hin Hv) as [_ [dw [Hw Hle2]]].
+      exists dw. split; auto. lia.
+  Qed.
+
+  (* every reached node has a walk of exactly its value *)
+  Lemma df_achieved : forall k w dw, oget d w = Some dw -> (Z.to_nat dw < k)%nat -> walk a s w dw.
+  Proof.
+    induction k as [|k IH]; intros w dw Hw Hk; [lia|].
+    destruct (Ftight w dw Hw) as [Hp [Heq | [v [dv [c [Hv [Hin Hsum]]]]]]].
+    - subst w. rewrite Fsrc in Hw. inversion Hw. subst. apply walk_nil.
+    - destruct (Frelaxed v w c dv Hin Hv) as [Hc _].
+      destruct (Ftight v dv Hv) as [Hpv _].
+      subst dw. apply walk_snoc with (v := v); auto. apply IH; auto. lia.
+  Qed.
+
+  Theorem df_sound : forall w, dist_spec a s w (oget d w).
+  Proof.
+    intros w. destruct (oget d w) as [dw|] eqn:Hw; cbn.
+    - split.
+      + apply (df_achieved (S (Z.to_nat dw))); auto.
+      + intros y Hy. destruct (df_lower w y Hy) as [dw' [Hw' Hle]]. rewrite Hw in Hw'. inversion Hw'. subst. exact Hle.
+    - intros [x Hx]. destruct (df_lower w x Hx) as [dw' [Hw' _]]. rewrite Hw in Hw'. discriminate.
+  Qed.
+
+  Lemma df_positive : forall w x, oget d w = Some x -> w <> s -> (0 < x)%Z.
+  Proof.
+    intros w x Hw Hne. destruct (Ftight w x Hw) as [_ [E | [v [dv [c [Hv [Hin Hsum]]]]]]]; [contradiction|].
+    destruct (Frelaxed v w c dv Hin Hv) as [Hc _]. destruct (Ftight v dv Hv) as [Hpv _]. lia.
+  Qed.
+End DistFacts.
+
 (* ------------------------------------------------------------------ check_dist is sound *)
 Section CheckDist.
   Variable a : zadj.
@@ -71,41 +120,14 @@ Section CheckDist.
       exists v, dv, c. auto.
   Qed.
 
-  (* every walk from s ends in a reached node whose value is at most the walk's weight *)
   Lemma ck_lower : forall w y, walk a s w y -> exists dw, oget d w = Some dw /\ (dw <= y)%Z.
-  Proof.
-    intros w y H. induction H as [|v w c x Hwalk IH Hin].
-    - exists 0%Z. split; [apply ck_src | lia].
-    - destruct IH as [dv [Hv Hle]].
-      destruct (ck_relaxed v w c dv Hin Hv) as [_ [dw [Hw Hle2]]].
-      exists dw. split; auto. lia.
-  Qed.
-
-  (* every reached node has a walk of exactly its value *)
-  Lemma ck_achieved : forall k w dw, oget d w = Some dw -> (Z.to_nat dw < k)%nat -> walk a s w dw.
-  Proof.
-    induction k as [|k IH]; intros w dw Hw Hk; [lia|].
-    destruct (ck_tight w dw Hw) as [Hp [Heq | [v [dv [c [Hv [Hin Hsum]]]]]]].
-    - subst w. rewrite ck_src in Hw. inversion Hw. subst. apply walk_nil.
-    - destruct (ck_relaxed v w c dv Hin Hv) as [Hc _].
-      destruct (ck_tight v dv Hv) as [Hpv _].
-      subst dw. apply walk_snoc with (v := v); auto. apply IH; auto. lia.
-  Qed.
+  Proof. exact (df_lower a s d ck_src ck_relaxed). Qed.
 
   Theorem check_dist_sound_at : forall w, dist_spec a s w (oget d w).
-  Proof.
-    intros w. destruct (oget d w) as [dw|] eqn:Hw; cbn.
-    - split.
-      + apply (ck_achieved (S (Z.to_nat dw))); auto.
-      + intros y Hy. destruct (ck_lower w y Hy) as [dw' [Hw' Hle]]. rewrite Hw in Hw'. inversion Hw'. subst. exact Hle.
-    - intros [x Hx]. destruct (ck_lower w x Hx) as [dw' [Hw' _]]. rewrite Hw in Hw'. discriminate.
-  Qed.
+  Proof. exact (df_sound a s d ck_src ck_relaxed ck_tight). Qed.
 
   Lemma ck_positive : forall w x, oget d w = Some x -> w <> s -> (0 < x)%Z.
-  Proof.
-    intros w x Hw Hne. destruct (ck_tight w x Hw) as [_ [E | [v [dv [c [Hv [Hin Hsum]]]]]]]; [contradiction|].
-    destruct (ck_relaxed v w c dv Hin Hv) as [Hc _]. destruct (ck_tight v dv Hv) as [Hpv _]. lia.
-  Qed.
+  Proof. exact (df_positive a s d ck_relaxed ck_tight). Qed.
 End CheckDist.
 
 Theorem check_dist_sound : forall a s d,
